@@ -173,6 +173,27 @@ structure GwResult where
   errors : List String
   calls : List Call
 
+mutual
+  /-- `(*ast.Value).Value` builds a list literal by appending to a nil slice: an EMPTY list literal
+      (also nested) is a nil `[]interface{}`, which `encoding/json` writes as `null` -/
+  def nilEmptyLists : J → J
+    | .arr [] => .null
+    | .arr (x :: xs) => .arr (nilEmptyListsL (x :: xs))
+    | .obj kvs => .obj (nilEmptyListsO kvs)
+    | v => v
+  def nilEmptyListsL : List J → List J
+    | [] => []
+    | x :: xs => nilEmptyLists x :: nilEmptyListsL xs
+  def nilEmptyListsO : List (String × J) → List (String × J)
+    | [] => []
+    | (k, v) :: rest => (k, nilEmptyLists v) :: nilEmptyListsO rest
+end
+
+/-- the default as it is stored in the request's variables: as declared when the helper keeps empty
+    lists (`emptyListsNotNil`, regenerated fact `Gen.Vars.emptyListDefaultsKept`), with every empty
+    list turned into `null` otherwise -/
+def defaultAsSent (kept : Bool) (v : J) : J := if kept then v else nilEmptyLists v
+
 /-- `applyDeclaredDefaults(operation, request)` (gateway.go): every variable definition of the
     selected operation that declares a default, in order; a variable the client sent a value for
     (an explicit `null` is a value) stays; `vd.DefaultValue.Value(nil)` is the constant
@@ -186,7 +207,7 @@ def applyDeclaredDefaults (varDefs : List VarDef) (reqVars : Option (List (Strin
       if (J.lookup vd.name (rv.getD [])).isSome then rv else
       match Spec.constToJ d with
       | none => rv
-      | some v => some (J.setKey vd.name v (rv.getD []))) reqVars
+      | some v => some (J.setKey vd.name (defaultAsSent Gen.Vars.emptyListDefaultsKept v) (rv.getD []))) reqVars
 
 /-- the request's variables as planning and execution see them: with the client's declared
     defaults when the handler fills them in (regenerated fact `Gen.Vars.declaredDefaultsApplied`),
